@@ -5,8 +5,9 @@ import handles as H
 import timeouts as T
 
 PROP = 'C06'
-VARIANTS = ['apply', 'map', 'imap']
-REPLAYERS = {'pool.TimeoutHandler.handle_timeouts': 'replayers/timeout_scan.py'}
+VARIANTS = ['apply', 'map', 'imap', 'fork']
+REPLAYERS = {'pool.TimeoutHandler.handle_timeouts': 'replayers/timeout_scan.py',
+             'pool.Worker.after_fork': 'replayers/after_fork.py', 'pool.soft_timeout_sighandler': 'replayers/after_fork.py'}
 
 ASSUMPTIONS = [
     'A-env: a signal sent to a live process is delivered; the handler installed for SIG_SOFT_TIMEOUT in the child is '
@@ -20,6 +21,11 @@ OUT_OF_REACH = ['the race in which the result thread resolves the job between th
 
 
 def build(w, variant='apply'):
+    if variant == 'fork':
+        # what the child installs before it takes jobs (shared with C08)
+        import worker_fork
+        w.cls('g', fields={})
+        return worker_fork.fork_contracts(w, PROP)
     T.declare(w, variant)
     ps.declare_submission(w)
     w.classes['g'].fields.update({'cb_soft': BoolS, 'cb_limit': opt(RealS), 'sig_target': opt(IntS), 'sig_num': opt(IntS)})
@@ -37,7 +43,11 @@ MANIFEST_ENTRY = {
             'called only for a job past its effective soft limit (per-job value, else pool default), not already past its hard '
             'limit, and never a second time; on_soft_timeout sends exactly one SIG_SOFT_TIMEOUT to the recorded owner if that '
             'worker is still in the pool and tells the timeout callback soft=True and the limit; apply_async stores the per-job '
-            'soft limit in preference to the pool default; map/imap handles are never signalled (D6, fixed).',
-    'note': 'Signal delivery, and that soft_timeout_sighandler is installed in the child, are assumed; the threads=True race '
+            'soft limit in preference to the pool default; map/imap handles are never signalled (D6, fixed).  In the child '
+            '(variant fork): Worker.after_fork installs soft_timeout_sighandler for the soft-timeout signal -- after the '
+            'termination handlers, which are installed once, with the worker\'s protection level and with the inherited exit '
+            'flag already cleared -- ignores SIGINT, runs the initializer once first and closes the two unused pipe ends; '
+            'soft_timeout_sighandler always raises SoftTimeLimitExceeded.',
+    'note': 'Signal delivery is assumed (that a delivered signal runs the installed handler inside the task); the threads=True race '
             'between the scan and the result handler is out of reach.',
 }
